@@ -618,6 +618,45 @@ let q_casing (args : string list) : string =
            | ShoutySnakeCase -> "ShoutySnakeCase" | SnakeCase -> "SnakeCase" | TitleCase -> "TitleCase"
            | UpperCase -> "UpperCase" | LowerCase -> "LowerCase" | ScreamingKebabCase -> "ScreamingKebabCase"
            | PascalCase -> "PascalCase" | TrainCase -> "TrainCase"))
+  | ["sweep"; alpha; maxlen; st] ->
+      (* every valid identifier over the alphabet up to maxlen, odometer order; FNV-1a digest per 4096 *)
+      let alpha = bytes_of_atom alpha in
+      let na = String.length alpha in
+      let maxlen = int_of_string maxlen in
+      let conv : str -> str =
+        if st = "snakify" then snakify
+        else if st = "-" then convert_case None
+        else (match style_of_string (str_of_atom st) with Some x -> convert_case (Some x) | None -> failwith "unknown style") in
+      let prime = 0x100000001b3L in
+      let h = ref 0xcbf29ce484222325L in
+      let feed (s : string) =
+        String.iter (fun c -> h := Int64.mul (Int64.logxor !h (Int64.of_int (Char.code c))) prime) s;
+        h := Int64.mul (Int64.logxor !h 10L) prime in
+      let digests = ref [] in
+      let inblock = ref 0 and total = ref 0 in
+      for len = 1 to maxlen do
+        let idx = Array.make len 0 in
+        let fin = ref false in
+        while not !fin do
+          let s = String.init len (fun i -> alpha.[idx.(i)]) in
+          if not (s.[0] >= '0' && s.[0] <= '9') && s <> "_" then begin
+            feed (string_of_str (conv (str_of_string s)));
+            incr inblock; incr total;
+            if !inblock = 4096 then (digests := Printf.sprintf "%016Lx" !h :: !digests; h := 0xcbf29ce484222325L; inblock := 0)
+          end;
+          let p = ref (len - 1) in
+          let carry = ref true in
+          while !carry do
+            if !p < 0 then (fin := true; carry := false)
+            else begin
+              idx.(!p) <- idx.(!p) + 1;
+              if idx.(!p) < na then carry := false else (idx.(!p) <- 0; decr p)
+            end
+          done
+        done
+      done;
+      if !inblock > 0 then digests := Printf.sprintf "%016Lx" !h :: !digests;
+      string_of_int !total ^ ":" ^ String.concat "," (List.rev !digests)
   | _ -> failwith "bad casing query"
 
 (* ----- outcome classes ----- *)
